@@ -265,7 +265,7 @@ Lemma status_str node st : zlen node + zlen st + 8 < CP_LINEMAX ->
   snprintf_s CP_LINEMAX CP_INFO_XSTATUS [node; st] = status_line node st ++ CP_EOL.
 Proof.
   intros H. unfold snprintf_s. rewrite fmt_status. apply take_all.
-  unfold status_line. rewrite !zlen_app. change (zlen (bs "303 ")) with 4. change (zlen (bs ": ")) with 2. change (zlen CP_EOL) with 2. lia.
+  unfold status_line. rewrite !zlen_app. change (zlen (bs "303 "%string)) with 4. change (zlen (bs ": "%string)) with 2. change (zlen CP_EOL) with 2. lia.
 Qed.
 
 Lemma states_distinct : PM_OFF <> PM_ON /\ PM_OFF <> PM_UNKNOWN /\ PM_ON <> PM_UNKNOWN.
@@ -273,15 +273,15 @@ Proof. repeat split; discriminate. Qed.
 
 (* the state is decided by the presence of the exact lines "303 <node>: off\r\n" / "303 <node>: on\r\n" *)
 Lemma node_status_spec node resp : zlen node + 11 < CP_LINEMAX ->
-  let offl := status_line node (bs "off") ++ CP_EOL in
-  let onl := status_line node (bs "on") ++ CP_EOL in
+  let offl := status_line node (bs "off"%string) ++ CP_EOL in
+  let onl := status_line node (bs "on"%string) ++ CP_EOL in
   (node_status node resp = PM_OFF <-> In offl resp) /\
   (node_status node resp = PM_ON <-> ~ In offl resp /\ In onl resp) /\
   (node_status node resp = PM_UNKNOWN <-> ~ In offl resp /\ ~ In onl resp).
 Proof.
   intros H offl onl. unfold node_status.
-  rewrite (status_str node (bs "off")) by (change (zlen (bs "off")) with 3; lia).
-  rewrite (status_str node (bs "on")) by (change (zlen (bs "on")) with 2; lia).
+  rewrite (status_str node (bs "off"%string)) by (change (zlen (bs "off"%string)) with 3; lia).
+  rewrite (status_str node (bs "on"%string)) by (change (zlen (bs "on"%string)) with 2; lia).
   fold offl onl. destruct states_distinct as (D1 & D2 & D3).
   destruct (list_search resp offl) eqn:E1; [|destruct (list_search resp onl) eqn:E2].
   - apply list_search_in in E1. intuition congruence.
@@ -302,8 +302,8 @@ Lemma node_status_reply node ls : zlen node + 11 < CP_LINEMAX -> Forall no_nul l
   node_status node (rev (map (fun l => cstr (l ++ CP_EOL)) ls)) = spec_status PM_OFF PM_ON PM_UNKNOWN node ls.
 Proof.
   intros H NN. unfold node_status, spec_status, list_search.
-  rewrite (status_str node (bs "off")) by (change (zlen (bs "off")) with 3; lia).
-  rewrite (status_str node (bs "on")) by (change (zlen (bs "on")) with 2; lia).
+  rewrite (status_str node (bs "off"%string)) by (change (zlen (bs "off"%string)) with 3; lia).
+  rewrite (status_str node (bs "on"%string)) by (change (zlen (bs "on"%string)) with 2; lia).
   rewrite !existsb_rev.
   assert (Q : forall s, existsb (fun l => text_eqb l (s ++ CP_EOL)) (map (fun l => cstr (l ++ CP_EOL)) ls) = existsb (fun l => text_eqb l s) ls).
   { intros s. induction ls as [|l ls IH]; cbn [map existsb]; [reflexivity|]. inversion NN; subst. rewrite IH by auto. f_equal.
